@@ -1024,11 +1024,19 @@ impl Decompressor {
         Self::open(&self.archive_path, self.config.clone())
     }
 
-    /// Write a sample to a FASTA file
+    /// Write a sample to a FASTA file (the file is created or truncated: it holds this sample only)
     pub fn write_sample_fasta(&mut self, sample_name: &str, output_path: &Path) -> Result<()> {
-        let contigs = self.get_sample(sample_name)?;
-
         let mut writer = GenomeWriter::<File>::create(output_path)?;
+        self.write_sample_to(sample_name, &mut writer)
+    }
+
+    /// Append the records of a sample to an open FASTA writer (several samples can share one writer)
+    pub fn write_sample_to<W: std::io::Write>(
+        &mut self,
+        sample_name: &str,
+        writer: &mut GenomeWriter<W>,
+    ) -> Result<()> {
+        let contigs = self.get_sample(sample_name)?;
 
         for (contig_name, contig_data) in contigs {
             // Convert numeric encoding back to ASCII using CNV_NUM lookup table
